@@ -14,7 +14,11 @@ def run_one(target, per_condition_timeout=60, hard_timeout=None):
     """target: 'package.module.function'"""
     hard_timeout = hard_timeout or per_condition_timeout * 2 + 30
     exe = os.path.join(os.path.dirname(sys.executable), 'crosshair')
-    env = dict(os.environ, PYTHONPATH=f'{ROOT}:/repo', PYTHONWARNINGS='ignore', PYTHONDONTWRITEBYTECODE='1')
+    # the tree under analysis is the one this process imports sc3 from (/repo for the registered commands)
+    import importlib.util
+    spec = importlib.util.find_spec('sc3')
+    repo = os.path.dirname(os.path.dirname(spec.origin)) if spec and spec.origin else '/repo'
+    env = dict(os.environ, PYTHONPATH=f'{ROOT}:{repo}', PYTHONWARNINGS='ignore', PYTHONDONTWRITEBYTECODE='1')
     t0 = time.time()
     try:
         p = subprocess.run([exe, 'check', '--report_all', '--per_condition_timeout', str(per_condition_timeout),
